@@ -230,8 +230,21 @@ impl Src {
             Ty::Struct(ms) => {
                 let mut decls = Vec::new();
                 for (k, m) in ms.iter().enumerate() {
-                    let (pre, base, suffix) = self.spell(m);
-                    decls.push((pre, base, format!("m{}{}", k, suffix)));
+                    let (mut pre, base, suffix) = self.spell(m);
+                    let mut name = format!("m{}{}", k, suffix);
+                    // member decorations that must not change the layout: `static` (the compiler treats and emits a
+                    // static member as an ordinary one), `precise`, interpolation modifiers, semantics
+                    let salt = (self.next as u64) * 131 + k as u64 * 7 + 3;
+                    if pre.is_empty() && !matches!(m, Ty::Undeclared(_) | Ty::Object(_)) {
+                        match self.choose(salt, 12) {
+                            1 => pre = "static ".into(),
+                            2 if matches!(m, Ty::Scalar('f') | Ty::Vec('f', _)) => pre = "precise ".into(),
+                            3 if matches!(m, Ty::Scalar('f') | Ty::Vec('f', _)) => pre = "nointerpolation ".into(),
+                            4 if matches!(m, Ty::Scalar(_) | Ty::Vec(..)) => name = format!("{} : TEXCOORD{}", name, k),
+                            _ => {}
+                        }
+                    }
+                    decls.push((pre, base, name));
                 }
                 let id = self.next;
                 self.next += 1;
@@ -1257,6 +1270,26 @@ pub fn run(args: &Args, out: &mut Out) {
     if let Some(lines) = args.request_lines() {
         for line in lines {
             let f: Vec<&str> = line.split('\t').collect();
+            if f.first() == Some(&"C19.ref") && f.len() == 2 {
+                // the two reference calculators on one type (cross-checked against Spec/LayoutFull.lean)
+                let obs = match parse_types(f[1]) {
+                    Some(tys) if tys.len() == 1 => {
+                        let one = |r: Rule| match ref_layout(r, &tys[0]) {
+                            Some(l) => format!(
+                                "{}/{}/{}",
+                                l.size,
+                                l.align,
+                                l.fields.iter().map(|(_, o)| o.to_string()).collect::<Vec<_>>().join(",")
+                            ),
+                            None => "none".into(),
+                        };
+                        format!("h={} m={}", one(Rule::HlslSB), one(Rule::Metal))
+                    }
+                    _ => "bad-request".into(),
+                };
+                out.case(&line, &obs, "ok");
+                continue;
+            }
             if f.first() == Some(&"C19.prog") {
                 match parse_prog(&f) {
                     Some(p) => run_prog(&p, out, &mut hist),
